@@ -222,6 +222,12 @@ def finish(res, tier, rule, level="exploration", assumptions=(), extra=None, eva
             real[fp] = v
     rdir = os.path.join(VERIF, "replays", prop)
     os.makedirs(rdir, exist_ok=True)
+    for old_f in os.listdir(rdir):  # replays of earlier runs of this tier would only mislead
+        if old_f.startswith(tier + "-"):
+            try:
+                os.unlink(os.path.join(rdir, old_f))
+            except OSError:
+                pass
     code = 0
     for k in open_k:
         n = known_hit.get(k["id"], (k, 0))[1]
